@@ -169,7 +169,7 @@ pub fn job_c05(out_dir: &str, tier: &str, seed: u64) {
     let quick = tier == "quick";
     let mut rng = Rng::new(seed ^ 0xC05);
     let mut sh = Shards::new(out_dir, "c05", 500_000);
-    let ncases = if quick { 4000 } else { 120000 };
+    let ncases = if quick { 10000 } else { 120000 };
     let mut n = 0usize;
     for _ in 0..ncases {
         let (mut items, html, ranges) = if rng.chance(1, 3) { gen_foreign_items(&mut rng, 12) } else { gen_doc(&mut rng, 12) };
